@@ -1206,9 +1206,41 @@ def r711(e: Engine, rep: Report):
         for c in cs:
             alpha |= c
     if npat < 2:
-        rep.error('anchor vanished: command patterns of slimta.smtp.io '
-                  '(%d < 2)' % npat)
-        return
+        # one pattern for both forms of the line: whatever recv_command
+        # matches the line with, its first group is the verb
+        alpha, npat = set(), 0
+        rc = e.method_ctx('slimta.smtp.io.IO', 'recv_command').func
+        for x in walk_own(rc.node):
+            if isinstance(x, ast.Call) and isinstance(x.func, ast.Attribute) \
+                    and x.func.attr in ('match', 'fullmatch') and \
+                    isinstance(x.func.value, ast.Name):
+                got = rx.module_pattern(e, IOMOD, x.func.value.id)
+                if got is None:
+                    continue
+                items0 = list(rx.parse(got[0], got[1]))
+                g1 = rx.find_group(items0, 1)
+                if g1 is None:
+                    continue
+                # (the verb is what the line begins with: group 1 stands
+                # first, after `^` at most)
+                from re import _constants as _sc
+                lead = [it for it in items0 if it[0] is not _sc.AT]
+                if not lead or lead[0][0] is not _sc.SUBPATTERN or \
+                        lead[0][1][0] != 1:
+                    rep.error('cannot tell which group of %s is the verb'
+                              % x.func.value.id)
+                    return
+                cs = rx.all_charsets(g1, got[1])
+                if any(c is None for c in cs):
+                    rep.error('cannot read the alphabet of %s'
+                              % x.func.value.id)
+                    return
+                npat += 1
+                for c in cs:
+                    alpha |= c
+        if npat < 1:
+            rep.error('anchor vanished: command patterns of slimta.smtp.io')
+            return
     # transformations between the match and the attribute lookup
     fns = [e.method_ctx('slimta.smtp.io.IO', 'recv_command').func,
            e.method_ctx(SERVER, '_handle_command').func]
